@@ -31,11 +31,28 @@ def widen(frag):
     return frag
 
 
+def emit_type_aliases(unit, src, frag, _visiting=None):
+    """A struct whose field types go through a `type X<..> = ..;` alias of the same file needs the alias: emit it first (once per unit,
+    see Unit.emit). The alias text is taken from /repo like everything else."""
+    import re
+    visiting = _visiting if _visiting is not None else set()
+    done = unit.__dict__.setdefault("_aliases_emitted", set())
+    for it in src.items:
+        if it.kind != "type" or (src.rel, it.name) in done or it.name in visiting or it.name == getattr(frag, "name", None):
+            continue
+        if re.search(r"\b%s\b" % re.escape(it.name), frag.orig):
+            al = src.item("type", it.name)
+            visiting.add(it.name)
+            emit_type_aliases(unit, src, al, visiting)   # aliases of aliases
+            unit.emit(al)
+
+
 def extract_struct(unit, src, name, derive=None, kind="struct"):
     from vf.unit import strip_attrs_and_docs
     f = src.item(kind, name)
     strip_attrs_and_docs(f)
     widen(f)
+    emit_type_aliases(unit, src, f)
     unit.emit(f, prefix=(derive + "\n") if derive else "")
     return f
 
@@ -57,6 +74,7 @@ def extract_struct_priv(unit, src, name, derive=None, kind="struct"):
     widen_private_fields(f)
     if not f.orig.startswith("pub"):
         f.replace_span(0, 0, "pub ", "R4", "visibility widening")
+    emit_type_aliases(unit, src, f)
     unit.emit(f, prefix=(derive + "\n") if derive else "")
     return f
 
